@@ -227,9 +227,11 @@ package graph
 //@ pure func gained(before size.Size, amount size.Size, after size.Size) bool { after == before + amount || after + 18446744073709551616 == before + amount }
 
 //@ heappure github.com/specterops/dawgs/util/size.Of
+// computeAndSetSize recomputes the sizes of the segment and of everything below it; it is trusted here only for a segment
+// without branches (what Descend creates), where the one field it writes is the segment's own size.
 //@ func (s *PathSegment) computeAndSetSize()
 //@   opaque
-//@   requires s != nil
+//@   requires s != nil && len(s.Branches) == 0
 //@   modifies s.size
 
 //@ func (s *PathSegment) Descend(node *Node, relationship *Relationship) *PathSegment
